@@ -61,7 +61,8 @@ class SQLiteValue(Value):
         if isinstance(value, datetime.date):
             return self.quote_str(str(value))
         if isinstance(value, datetime.timedelta):
-            return repr(value.total_seconds() / (24 * 60 * 60))
+            # the same formula as SQLiteTimedeltaConverter.py2sql, so that a constant equals the stored value
+            return repr(value.days + (value.seconds + value.microseconds / 1000000.0) / 86400.0)
         if isinstance(value, datetime.time):
             return self.quote_str(value.isoformat())
         return Value.__str__(self)
